@@ -146,7 +146,7 @@ func (c *c03Case) compareAll(withBody bool, unordered map[string][][]string, sig
 
 func runC03(r *ev.Run) {
 	r.SetRule("sequentialised command histories (APPEND/STORE/EXPUNGE/UID EXPUNGE/CLOSE/COPY/MOVE incl. same-mailbox and already-present destinations, failing commands) from 1-4 sessions against 3 mailboxes, compared with the reference model through fresh EXAMINE sessions; plus bulk commands at batch sizes around the index's statement-batching limit. distinct = distinct (command kind, set shape, flag action, outcome) tuples and (bulk command, size) pairs observed")
-	r.Assume("each command is issued right after a SELECT of its mailbox, so the issuing session's view equals the authoritative content (view lag is C01/C02's subject)",
+	r.Assume("in the first kind of history each command is issued right after a SELECT of its mailbox, so the issuing session's view equals the authoritative content; in 'live' histories sessions keep their selection, commands are UID-based over the session's own (possibly lagging) view, and a MOVE / UID EXPUNGE of a message that was already expunged elsewhere is expected to have no effect",
 		"relative order of the messages filed by one multi-message COPY/MOVE is not prescribed by the property and is compared as a set")
 
 	histories := r.Pick(48, 1500)
@@ -160,6 +160,19 @@ func runC03(r *ev.Run) {
 
 		c03History(r, label, opsPer)
 	})
+
+	live := r.Pick(60, 1500)
+
+	ev.Parallel(live, 10, func(i int) {
+		label := fmt.Sprintf("live-%d", i)
+		if r.OnlyCase != "" && r.OnlyCase != label {
+			return
+		}
+
+		c03LiveHistory(r, label, r.Pick(35, 50))
+	})
+
+	c03DirectedStaleExpunge(r)
 
 	sizes := []int{2, 501, 1001}
 	if r.Thorough() {
